@@ -22,6 +22,8 @@ EVENTS = [
     ("add", ("b",), (-2.0,)),
     ("add", ("logW", "logQ", "logU"), None),
     ("add", ("qn",), (0.0,)),
+    ("add", ("a", "b"), (1.5, -2.0)),
+    ("add", ("b", "a", "c"), (3.0, 4.0, 5.0)),
     ("reset",),
 ]
 
